@@ -252,6 +252,16 @@ func parseLine(line string, document *Document, family *FamilyNode) (Node, int, 
 	// Tag (required).
 	tag := TagFromString(parts[3])
 
+	// A husband, wife or child belongs to the most recently seen family. There
+	// is nothing it could belong to before the first family.
+	if family == nil {
+		switch tag {
+		case TagHusband, TagWife, TagChild:
+			return nil, 0, fmt.Errorf("%s outside of a family: %s",
+				tag.Tag(), line)
+		}
+	}
+
 	// Value (optional).
 	value := parts[4]
 
